@@ -27,7 +27,8 @@ inductive Val
   | array (typed : Bool) (items full : List Val)            -- `full`: the array as it lies in memory
   | cenum (v : Str)
   | renum (variant : Str) (v : Val)
-  | ptr (derefable : Bool) (run : List Val)                 -- pointer with a value; `run`: memory from the target on
+  | ptr (derefable loc : Bool) (run : List Val)             -- pointer with a value; `run`: memory from the target on;
+                                                            -- `loc = false`: made by `&`, it has no address itself
   | subr
   | vec (dq : Bool) (buf : Val) (orig : Val)                -- Vec / VecDeque: `structure.members[0]` is `buf`
   | map (bt : Bool) (kvs : List (Val × Val)) (orig : Val)   -- BTreeMap / HashMap, in the decoder's order
@@ -35,6 +36,8 @@ inductive Val
   | string (s : Str) (orig : Val)                           -- String / &str
   | rc (run : List Val) (orig : Val)                        -- Rc / Arc
   | cell (v : Val) (orig : Val)                             -- Cell / RefCell
+  | canon (orig : Val) (self : Val)                         -- `~x`: the underlying structure `orig` of the specialized value `self`
+                                                            -- (same address and type id as `self`)
   | other                                                   -- anything else (specialized without value, Tls, ...)
   deriving Repr, Inhabited
 
@@ -97,6 +100,7 @@ def matchLit : Val → Lit → Bool
       | some l => matchLit v l)
   | .vec _ buf _, l => matchLit buf l
   | .cell v _, l => matchLit v l
+  | .canon o _, l => matchLit o l
   | .set _ items _, .arr ls => items.length == ls.length && matchSet items ls
   | _, _ => false
 /-- positional matching; a wildcard matches anything -/
@@ -152,6 +156,7 @@ def field (name : Str) : Val → Option Val
   | .map _ kvs _ => (kvs.find? (fun kv => isStrKey name kv.1)).map (·.2)
   | .vec _ buf _ => if name == ['b', 'u', 'f'] then some buf else none
   | .cell v _ => field name v
+  | .canon o _ => field name o
   | _ => none
 
 def index (l : Lit) : Val → Option Val
@@ -166,10 +171,15 @@ def index (l : Lit) : Val → Option Val
   | .set _ items _ => some (.synth (items.any (fun it => matchLit it l)))
   | _ => none
 
+def isUnit : List Val → Bool
+  | .unit :: _ => true
+  | _ => false
+
 /-- `PointerValue::slice` within the known run; reads past it are outside the model (`other`) -/
 def ptrSlice (run : List Val) (l : Option Nat) (r : Nat) : Res Val :=
   let lo := l.getD 0
   if r < lo then .panic "sub"
+  else if isUnit run then .panic "chunk0"        -- `raw_data.chunks(0)` for a zero-sized pointee
   else if r ≤ run.length then .ok (.array false ((run.drop lo).take (r - lo)) ((run.drop lo).take (r - lo)))
   else .ok .other
 
@@ -178,7 +188,7 @@ def slice (l r : Option Nat) : Val → Res Val
     | .ok xs => .ok (.array t xs full)
     | .none => .none
     | .panic c => .panic c
-  | .ptr d run => match r with
+  | .ptr d _ run => match r with
     | none => .none
     | some r => if d then ptrSlice run l r else .none
   | .rc run _ => match r with
@@ -193,7 +203,7 @@ def slice (l r : Option Nat) : Val → Res Val
   | _ => .none
 
 def deref : Val → Option Val
-  | .ptr true run => run.head?
+  | .ptr true _ run => run.head?
   | .renum _ v => deref v
   | .rc run _ => run.head?
   | .cell v _ => deref v
@@ -203,6 +213,9 @@ def deref : Val → Option Val
 def memImage : Val → Val
   | .array t _ full => .array t full full
   | .vec dq (.array t _ full) orig => .vec dq (.array t full full) orig
+  | .canon _ (.array t _ full) => .array t full full
+  | .canon _ (.vec dq (.array t _ full) orig) => .vec dq (.array t full full) orig
+  | .canon _ self => self
   | v => v
 
 /-- does the value carry an address and a type id (needed to come back through the pointer)? -/
@@ -214,15 +227,16 @@ def address : Val → Option Val
   | .synth _ => none
   | .subr => none
   | .other => none
-  | v => some (.ptr (derefableAddr v) [memImage v])
+  | .ptr _ false _ => none
+  | v => some (.ptr (derefableAddr v) false [memImage v])
 
 def canonic : Val → Val
-  | .vec _ _ orig => orig
-  | .map _ _ orig => orig
-  | .set _ _ orig => orig
-  | .string _ orig => orig
-  | .rc _ orig => orig
-  | .cell _ orig => orig
+  | .vec dq buf orig => .canon orig (.vec dq buf orig)
+  | .map bt kvs orig => .canon orig (.map bt kvs orig)
+  | .set bt xs orig => .canon orig (.set bt xs orig)
+  | .string s orig => .canon orig (.string s orig)
+  | .rc run orig => .canon orig (.rc run orig)
+  | .cell c orig => .canon orig (.cell c orig)
   | v => v
 
 def ofOpt {α} : Option α → Res α
